@@ -140,3 +140,14 @@ Proof.
   - apply forallb_dictk_ppd; assumption.
   - apply forallb_dictk_ppd; assumption.
 Qed.
+
+(* the refinement does not look at safety marks, metadata or implicit flags: stages with the same priority image build the same image *)
+Theorem same_image_same_result e s0 sts s0' sts' :
+  Forall NewZ (s0 :: sts) -> Forall NewZ (s0' :: sts') -> forallb is_dictk (s0 :: sts) = true -> forallb is_dictk (s0' :: sts') = true ->
+  map perase (s0 :: sts) = map perase (s0' :: sts') ->
+  exists n m, flatten e (s0 :: sts) = Ok n /\ flatten e (s0' :: sts') = Ok m /\ perase n = perase m.
+Proof.
+  intros HF HF' HD HD' E.
+  destruct (flatten_prio e s0 sts HF HD) as (n & En & Pn). destruct (flatten_prio e s0' sts' HF' HD') as (m & Em & Pm).
+  exists n, m. split; [exact En|]. split; [exact Em|]. cbn [map] in E. injection E as E0 Er. now rewrite Pn, Pm, E0, Er.
+Qed.
